@@ -19,7 +19,8 @@ type Unit struct {
 }
 
 type UnitsFile struct {
-	Units []Unit `json:"units"`
+	Units    []Unit   `json:"units"`
+	Baseline []string `json:"baseline"` // when non-empty: only these clause-level obligations are discharged
 }
 
 type OblOut struct {
@@ -259,7 +260,20 @@ func main() {
 
 	// discharge
 	t2 := time.Now()
-	all := append([]*Obligation{}, e.Obls...)
+	claimedOnly := map[string]bool{}
+	for _, n := range uf.Baseline {
+		claimedOnly[n] = true
+	}
+	var all []*Obligation
+	var skipped []*Obligation
+	for _, o := range e.Obls {
+		if len(claimedOnly) > 0 && !claimedOnly[o.Name] {
+			o.Result = &SolveResult{Status: "skipped", Solver: "not-claimed"}
+			skipped = append(skipped, o)
+			continue
+		}
+		all = append(all, o)
+	}
 	all = append(all, covers...)
 	res.VCs = len(all)
 	os.MkdirAll(*out, 0o755)
@@ -275,7 +289,7 @@ func main() {
 		asserts = append(asserts, instantiate(o.PC, sks)...)
 		var gv []*Term
 		if o.Kind != "cover" {
-			gv = append(append([]*Term{}, o.Inputs...), heapReads(asserts)...)
+			gv = append(append(append([]*Term{}, o.Inputs...), sks...), heapReads(asserts)...)
 		}
 		o.GetValues = gv
 		used := func(name string) bool { _, ok := ufDecls[name]; return ok }
@@ -346,6 +360,8 @@ func main() {
 					a.Where = nil
 				}
 			}
+		case "skipped":
+			a.Status = "skipped"
 		default:
 			if a.Status == "unsat" {
 				a.Status = "unknown"
@@ -354,6 +370,7 @@ func main() {
 			}
 		}
 	}
+	_ = skipped
 	for _, tr := range e.trivialAll {
 		a := agg[tr.name]
 		if a == nil {
@@ -392,7 +409,7 @@ func main() {
 		}
 	}
 	for _, o := range res.Obligations {
-		if o.Status != "unsat" {
+		if o.Status != "unsat" && o.Status != "skipped" {
 			bad++
 			fmt.Printf("FAILED %s [%s] %s %v\n", o.Name, o.Status, o.SMTFile, o.Where)
 		}
@@ -405,16 +422,27 @@ func main() {
 // constants (which are returned).
 func skolemNeg(goal *Term) (*Term, []*Term) {
 	var sks []*Term
-	for goal.Op == "forall" {
-		m := map[*Term]*Term{}
-		for _, b := range goal.Bound {
-			sk := Fresh("sk$"+strings.SplitN(b.Name, "?", 2)[0], b.Sort)
-			m[b] = sk
-			sks = append(sks, sk)
+	var ants []*Term
+	for {
+		if goal.Op == "forall" {
+			m := map[*Term]*Term{}
+			for _, b := range goal.Bound {
+				sk := Fresh("sk$"+strings.SplitN(b.Name, "?", 2)[0], b.Sort)
+				m[b] = sk
+				sks = append(sks, sk)
+			}
+			goal = Subst(goal.Args[0], m)
+			continue
 		}
-		goal = Subst(goal.Args[0], m)
+		if goal.Op == "=>" && (goal.Args[1].Op == "forall" || goal.Args[1].Op == "=>") {
+			// not(A => forall x. B)  ==  A and exists x. not B
+			ants = append(ants, goal.Args[0])
+			goal = goal.Args[1]
+			continue
+		}
+		break
 	}
-	return Not(goal), sks
+	return And(append(ants, Not(goal))...), sks
 }
 
 // instantiate adds, for every universally quantified hypothesis over one integer variable,
